@@ -450,7 +450,19 @@ func registerModels(P *Program) {
 	}
 	ic["fmt.Sprint"] = func(ex *Exec, th *Thread, caller *frame, fn *ssa.Function, args []Value) Value {
 		vs := sliceVals(args[0])
-		return ex.sprintf(th, caller, strings.Repeat("%v", len(vs)), vs)
+		// Sprint adds a space between operands when neither is a string
+		isStr := func(v Value) bool {
+			itf, ok := v.(Iface)
+			return ok && itf.T != nil && isStringType(itf.T)
+		}
+		var fb strings.Builder
+		for i := range vs {
+			if i > 0 && !isStr(vs[i-1]) && !isStr(vs[i]) {
+				fb.WriteByte(' ')
+			}
+			fb.WriteString("%v")
+		}
+		return ex.sprintf(th, caller, fb.String(), vs)
 	}
 	ic["fmt.Printf"] = func(ex *Exec, th *Thread, caller *frame, fn *ssa.Function, args []Value) Value {
 		ex.sprintf(th, caller, args[0], sliceVals(args[1]))
